@@ -297,6 +297,17 @@ pub fn run(ctx: &Ctx) -> (Stats, Spec) {
             }
         }
     }
+    if std::path::Path::new("/dev/full").exists() {
+        for to_stdout in [false, true] {
+            st.evals += 1;
+            let args: Vec<&str> = if to_stdout { vec!["-u"] } else { vec!["-u", "/dev/stdin", "/dev/full"] };
+            match super::common::fails_on_full_device(ctx, "max_clique_gen", &args, Some(b"a,b\nb,c\n"), to_stdout) {
+                Some(true) => st.bump("full_device_reported"),
+                Some(false) => st.violate("c16.run", "C16:success-although-nothing-could-be-written".into(), format!("max_clique_gen with the output on a full device ({}) exits 0", if to_stdout { "stdout" } else { "OUTPUT = /dev/full" }), json!({"kind": "full-device"})),
+                None => st.bump("watchdog(inconclusive case)"),
+            }
+        }
+    }
     // file names that are not valid UTF-8: same formula as through stdin / stdout
     {
         let csv = "a,b\nb,a\nb,c\nc,b\nc,d\n";
